@@ -2,7 +2,7 @@
    ExtrOcamlBasic only: bool, option, list, prod, unit, sumbool map to OCaml's; Z, N, positive,
    nat stay the extracted inductives.  No Extract Constant of ours. *)
 From Coq Require Import Extraction ExtrOcamlBasic.
-From KV Require Import DetectProofs Base FP Params ParamsProofs Weave WeaveProofs WeaveCheck Sort Detect Api Cmp Bpm Formats.
+From KV Require Import DetectProofs Base FP Params ParamsProofs Weave WeaveProofs WeaveCheck Sort Detect Api Cmp Bpm Formats Cli.
 Extraction Language OCaml.
 Set Extraction Optimize.
 Extraction "../ocaml/kvmodel.ml"
@@ -16,4 +16,5 @@ Extraction "../ocaml/kvmodel.ml"
   compare_model ref_aligned
   bpm_block bpm64 bpm256 sed firstn
   read_inputs rows_of write_fasta write_clu write_msf parse_format read_lines detect_format
+  cli_main predicted_run_stage exit_code
   kpath_wfb ops_fitb integrity_b subalignment_b strip_allgap degap w_gaps w_sip.
